@@ -298,17 +298,20 @@ class C19Run(qsrun.QsRun):
 
     def _quiesce(self):
         qsrun.QsRun._quiesce(self)
-        self._check_calls()
+        while self._check_calls():
+            # finished application calls closed their connections: let the server see that
+            qsrun.QsRun._quiesce(self)
 
     def _check_calls(self):
         if self.misrouted:
             jid = self.misrouted[0]
             raise Violation("S-state", f"job {jid!r} of a collection that lives on this queue server was enqueued on the "
                             f"installation's other queue server: its status can never be reported faithfully")
+        closed = False
         for pid, call in self.calls.items():
             if call["finished"] and not call["checked"]:
                 call["checked"] = True
-                self.sim.disconnect(pid)
+                closed = self.sim.disconnect(pid) or closed
                 if call.get("interrupted"):
                     self.poll_stats["interrupted-by-restart"] = self.poll_stats.get("interrupted-by-restart", 0) + 1
                     continue
@@ -320,6 +323,7 @@ class C19Run(qsrun.QsRun):
                         continue
                     if not isinstance(out, dict) or "exception" in out or "error" in out:
                         raise Violation("S-exception", f"do_render({call['cid']}, {call['writer']}) returned {out!r}")
+        return closed
 
     # ---- the oracle ------------------------------------------------------------
     def check_status(self, pid, call):
@@ -522,6 +526,9 @@ class C19Run(qsrun.QsRun):
         # direct adds (not through nserve) use the same id scheme so that they collide
         rng, c = self.rng, self.config
         cid = rng.choice(c["cids"])
+        k = self._readd_candidate() if self._bias(0.5) else None
+        if k is not None:
+            return {"channel": k.channel, "jobid": k.jobid, "timeout": rng.choice([60, 1200])}
         if rng.random() < 0.5:
             return {"channel": "makezip", "jobid": f"{cid}:makezip", "timeout": rng.choice([60, 1200])}
         return {"channel": "render", "jobid": f"{cid}:render-{rng.choice(c['writers'])}", "timeout": rng.choice([60, 1200])}
@@ -573,6 +580,24 @@ class C19Run(qsrun.QsRun):
         stuck = [p for p, c in self.calls.items() if not c["finished"]]
         if stuck:
             raise Violation("S-exception", f"application calls never returned: {stuck}")
+        # final polls: whatever the history did, the status of every render job the queue was ever
+        # asked for must still be faithful now (each poll runs alone, its RPCs released at once)
+        if self.blip:
+            self.step(["blip", "off"])
+        for n, (cid, writer) in enumerate(self._known_pairs()[:6]):
+            pid = f"fp{n + 1}"
+            if not self.step(["app", pid, "status", cid, writer, "new"]):
+                continue
+            guard = 0
+            while guard < 20 and not self.calls[pid]["finished"]:
+                guard += 1
+                if pid in self.parked:
+                    self.step(["prpc", pid])
+                self.step(["run"])
+            if not self.calls[pid]["finished"]:
+                raise Violation("S-exception", f"final status({cid[:4]}.., {writer}) never returned")
+            self.poll_stats["final-poll"] = self.poll_stats.get("final-poll", 0) + 1
+        self._quiesce()
         qsrun.QsRun.epilogue(self, probe=True, drain=True)
 
     def close(self):
